@@ -85,6 +85,12 @@ func runC13Turn(c *Ctx) {
 						if isC && k == left && bo.Op == token.NEQ {
 							ok = true
 						}
+						// the same decision written the other way round (`== leftTurn`
+						// leaves the loop): judged by which branch reaches the pop
+						// for each of the three orientations
+						if isC && !ok && popsExactlyWhenNotLeft(bo, k, []int64{left, right, col}, left) {
+							ok = true
+						}
 					}
 				}
 			}
@@ -111,6 +117,80 @@ func runC13Turn(c *Ctx) {
 	if n < 2 {
 		c.Errorf("monotoneChain has %d orientation tests, expected 2 (lower and upper hull)", n)
 	}
+}
+
+// popsExactlyWhenNotLeft: bo compares an orientation with the constant k and
+// feeds a branch; for each possible orientation the branch taken reaches a
+// truncation of a slice (the pop) before the next append (the push) exactly
+// when the orientation is not a left turn.
+func popsExactlyWhenNotLeft(bo *ssa.BinOp, k int64, orientations []int64, left int64) bool {
+	var ifi *ssa.If
+	for _, r := range *bo.Referrers() {
+		if x, ok := r.(*ssa.If); ok {
+			ifi = x
+		}
+	}
+	if ifi == nil || len(*bo.Referrers()) != 1 {
+		return false
+	}
+	hasPop := func(b *ssa.BasicBlock) bool {
+		for _, in := range b.Instrs {
+			if sl, ok := in.(*ssa.Slice); ok && sl.High != nil {
+				return true
+			}
+		}
+		return false
+	}
+	hasPush := func(b *ssa.BasicBlock) bool {
+		for _, in := range b.Instrs {
+			if call, ok := in.(*ssa.Call); ok {
+				if bi, ok := call.Call.Value.(*ssa.Builtin); ok && bi.Name() == "append" {
+					return true
+				}
+			}
+		}
+		return false
+	}
+	reachesPop := func(start *ssa.BasicBlock) bool {
+		seen := map[*ssa.BasicBlock]bool{start: true}
+		work := []*ssa.BasicBlock{start}
+		for len(work) > 0 {
+			b := work[len(work)-1]
+			work = work[:len(work)-1]
+			if hasPop(b) {
+				return true
+			}
+			if hasPush(b) || b == ifi.Block() {
+				continue
+			}
+			for _, s := range b.Succs {
+				if !seen[s] {
+					seen[s] = true
+					work = append(work, s)
+				}
+			}
+		}
+		return false
+	}
+	for _, o := range orientations {
+		var truth bool
+		switch bo.Op {
+		case token.EQL:
+			truth = o == k
+		case token.NEQ:
+			truth = o != k
+		default:
+			return false
+		}
+		succ := ifi.Block().Succs[1]
+		if truth {
+			succ = ifi.Block().Succs[0]
+		}
+		if reachesPop(succ) != (o != left) {
+			return false
+		}
+	}
+	return true
 }
 
 func runC13FMA(c *Ctx) {
